@@ -140,6 +140,23 @@ def _is_const_text(t: str) -> bool:
     return True
 
 
+def _rename_text(text: str, ren: dict) -> str | None:
+    """Rename the free names of an expression text; None if a free name is not in the renaming (not passed along)."""
+    try:
+        tree = ast.parse(text, mode="eval")
+    except SyntaxError:
+        return None
+    names = {n.id for n in ast.walk(tree) if isinstance(n, ast.Name)}
+    if not names or not names <= set(ren):
+        return None
+
+    class R(ast.NodeTransformer):
+        def visit_Name(self, node):  # noqa: N802
+            return ast.Name(id=ren[node.id], ctx=node.ctx)
+
+    return norm(R().visit(tree))
+
+
 def cur_wrapped_param(c: Callee) -> str | None:
     """Name of the parameter of the enclosing decorator that holds the wrapped callable."""
     p = c.func.parent
@@ -952,6 +969,15 @@ class Interp:
                             out_facts.add(("isdict", name))
                         elif fct[0] == "in" and fct[2] == at and _is_const_text(fct[1]):
                             out_facts.add(("in", fct[1], name))
+            # membership facts whose every free name is passed as a plain name: rename into the callee's parameters
+            if facts:
+                ren = {a.id: name for name, a in pairs if isinstance(a, ast.Name)}
+                for fct in facts:
+                    if fct[0] != "in":
+                        continue
+                    k2, d2 = _rename_text(fct[1], ren), _rename_text(fct[2], ren)
+                    if k2 is not None and d2 is not None:
+                        out_facts.add(("in", k2, d2))
             # defaults for unbound literal parameters
             for name in f.params:
                 if name in bound:
